@@ -29,7 +29,7 @@ LEVEL = "fault_enumeration"
 RULE = (
     "case = (TLS version 1.2|1.3, standard_compatible, message-size sequence per direction "
     "from 0 B to 9 records (up to 140000 B in one send), receive sizes, wire chunk policy per "
-    "direction pass|1byte|random|coalesce, transport send latency 1-4 cycles with a one-sender "
+    "direction pass|1byte|random|coalesce|empties (zero-length items interspersed), transport send latency 1-4 cycles with a one-sender "
     "guard like SocketStream's, cut point: none | ciphertext byte offset c in one direction). For the small "
     "base session the cut offset is enumerated over EVERY ciphertext byte of both "
     "directions (thorough; quick: every 2nd offset plus the first/last offsets); larger "
@@ -132,6 +132,14 @@ def execute(case: dict) -> dict:
 
             if not self.buf:
                 raise EndOfStream
+
+            if self.policy == "empties":
+                # an object-stream transport may deliver zero-length items: they carry no
+                # bytes and say nothing about the end of the transport
+                self.gets = getattr(self, "gets", 0) + 1
+                if self.gets % 3 != 0:
+                    obs["empty_chunks"] = obs.get("empty_chunks", 0) + 1
+                    return b""
 
             if self.policy == "1byte":
                 n = 1
@@ -430,7 +438,8 @@ def all_cases(tier: str, seed: int):  # noqa: ANN201
                     yield base_case(ver, compat, ["pass", "pass"], [d, off])
 
             for pol in (["1byte", "1byte"], ["random", "coalesce"], ["coalesce", "random"],
-                        ["1byte", "pass"], ["pass", "random"]):  # fmt: skip
+                        ["1byte", "pass"], ["pass", "random"], ["empties", "empties"],
+                        ["empties", "pass"]):  # fmt: skip
                 yield base_case(ver, compat, pol)
                 for _ in range(12 if tier == "thorough" else 3):
                     d = rng.randrange(2)
@@ -452,7 +461,8 @@ def all_cases(tier: str, seed: int):  # noqa: ANN201
         ver = rng.choice(["1.2", "1.3"])
         sizes = [[rng.choice(sizes_pool) for _ in range(rng.randint(0, 4))] for _ in range(2)]
         case = {"cfg": rng.choice(["stock", "eager"]), "ver": ver, "compat": rng.random() < 0.6,
-                "policy": [rng.choice(["pass", "1byte", "random", "coalesce"]) for _ in range(2)],
+                "policy": [rng.choice(["pass", "1byte", "random", "coalesce", "empties"])
+                           for _ in range(2)],
                 "sizes": sizes, "rsizes": [[rng.choice([1, 7, 100, 5000, 65536]) for _ in range(2)]
                                            for _ in range(2)],
                 "closer": rng.choice(["client", "server"]), "cut": None,
